@@ -1,7 +1,6 @@
 package larking
 
 import (
-	"io"
 	"net/http"
 	"net/url"
 )
@@ -9,43 +8,6 @@ import (
 func init() {
 	vfHarnesses["VerifH_serveHTTP_encoding"] = VerifH_serveHTTP_encoding
 	vfHarnesses["VerifH_serveGRPC_compressed"] = VerifH_serveGRPC_compressed
-}
-
-// vfMarkCompressor is a recognisable "compression": Compress prefixes the stream with "Z:",
-// Decompress strips it (and fails on input without the marker).
-type vfMarkCompressor struct{ compressCalls, decompressCalls int }
-
-type vfMarkWriter struct {
-	w       io.Writer
-	started bool
-}
-
-func (m *vfMarkWriter) Write(p []byte) (int, error) {
-	if !m.started {
-		m.started = true
-		if _, err := m.w.Write([]byte("Z:")); err != nil {
-			return 0, err
-		}
-	}
-	return m.w.Write(p)
-}
-func (m *vfMarkWriter) Close() error { return nil }
-
-func (c *vfMarkCompressor) Name() string { return "zz" }
-func (c *vfMarkCompressor) Compress(w io.Writer) (io.WriteCloser, error) {
-	c.compressCalls++
-	return &vfMarkWriter{w: w}, nil
-}
-func (c *vfMarkCompressor) Decompress(r io.Reader) (io.Reader, error) {
-	c.decompressCalls++
-	all, err := io.ReadAll(r)
-	if err != nil {
-		return nil, err
-	}
-	if len(all) < 2 || all[0] != 'Z' || all[1] != ':' {
-		return nil, errVfCodec
-	}
-	return &vfWholeReader{data: all[2:]}, nil
 }
 
 // VerifH_serveHTTP_encoding (C04, C03): the response Content-Encoding header names the compressor
